@@ -1307,6 +1307,13 @@ func (g *Gen) bigMergeCase() {
 			}
 			toks = append(toks, TokSpec{Term: []byte("zzz"), Freq: 1})
 			doc.Fields = append(doc.Fields, FieldSpec{Kind: "fld", Name: "body", Typ: 't', Len: 2 + d%4, DV: k == 0, Toks: toks})
+			// the field that sorts right behind `body`: its FIRST term is the empty term (few hits, while
+			// the last term before it is in every document), its last term is in every document again
+			b0 := []TokSpec{{Term: []byte("zzz"), Freq: 1 + d%2}}
+			if d%40 == 7 || d == nd-2 {
+				b0 = append(b0, TokSpec{Term: []byte{}, Freq: 3, Locs: []LocSpec{{Pos: 2, Start: d, End: d + 1}}})
+			}
+			doc.Fields = append(doc.Fields, FieldSpec{Kind: "fld", Name: "body0", Typ: 't', Len: 4, Toks: b0})
 			if d == nd-1 || d == nd-3 {
 				// the next field's FIRST term equals this field's LAST term, with few hits
 				doc.Fields = append(doc.Fields, FieldSpec{Kind: "fld", Name: "bodz", Typ: 't', Len: 5, Toks: []TokSpec{{Term: []byte("zzz"), Freq: 2 + d%2}}})
@@ -1396,6 +1403,8 @@ func (g *Gen) bigMergeCase() {
 	g.emit("q post %s body %s ex=nil fl=111 ops=N,A%d,N,N,A%d,N,N", m2, hx([]byte("common")), total/2, total-2)
 	g.emit("close %s", m2)
 	g.emit("q dict %s tag aut=all lo=* hi=* probe=.", m)
+	g.emit("q post %s body0 . ex=nil fl=111 ops=%s", m, g.nexts(total/30+6))
+	g.emit("q post %s body0 %s ex=nil fl=111 ops=N,A%d,N,N,A%d,N,N", m, hx([]byte("zzz")), total/2, total-2)
 	g.emit("q post %s bodz %s ex=nil fl=111 ops=N,N,N,N,N", m, hx([]byte("zzz")))
 	g.emit("q post %s tag . ex=nil fl=111 ops=%s", m, g.nexts(total/30+4))
 	g.emit("q post %s body %s ex=nil fl=100 ops=N,A%d,N,N,A%d,N,N", m, hx([]byte("zzz")), total/2, total-2)
